@@ -26,9 +26,10 @@ def plan(tier, seed):
         gs.append(Group('TABLE:identities[%s]' % n, T.g_tables_identities, ([n],)))
     for n in QS + ['qshift_b_bp']:
         gs.append(Group('TABLE:identities[%s]' % n, T.g_tables_identities, ([n],)))
-    for n in (QS if dense else ['qshift_06', 'qshift_a']):
+    for n in (QS if dense else ['qshift_06']):
         gs.append(Group('LEMMA:qshift-PR-1d[%s] (concrete taps, symbolic size)' % n, D.g_qshift_pr_symbolic, (n,)))
-    gs.append(Group('canary:qshift-PR-with-a-perturbed-tap', D.g_qshift_pr_symbolic, ('qshift_06',), {'perturb': 1e-6}, canary=True))
+    gs.append(Group('canary:level1-closed-form-shifted', D.g_level1_closed_form, (True,), canary=True))
+    gs.append(Group('canary:perturbed-table', T.g_tables_identities, (['qshift_a'],), {'perturb': 1e-6}, canary=True))
     pairs = [(b, q) for b in BI for q in QS]
     jobs = [{'fn': 'ref_pr', 'cfg': {'biort': b, 'qshift': q}, 'grid': {'J': [1, 3, 5] if dense else [1, 3], 'H': [2, 7, 18, 40], 'W': [5, 24]}} for b, q in pairs]
     jobs += [{'fn': 'dtcwt_pr', 'cfg': {'biort': b, 'qshift': q}, 'grid': {'J': [1, 2, 4], 'H': [2, 7, 18, 34] + ([45] if dense else []), 'W': [5, 24]}}
@@ -40,7 +41,7 @@ def plan(tier, seed):
         'level': 'other', 'trusted_base': TRUSTED + ['reference dtcwt 0.14 (oracle)'],
         'assumptions': ASSUMPTIONS + DT_ASSUME + [
             'level 1, one axis: closed form (symbolic, symmetric odd filters) + TABLE identity conv(h0,g0)+conv(h1,g1)=delta => PR; images at least as long as the filters (single reflection)',
-            'q-shift levels, one axis: PR lemma with the concrete exact taps of the shipped table and symbolic image length (>= filter length), tolerance 1e-9 (2 tables quick, 5 thorough)',
+            'q-shift levels, one axis: PR lemma with the concrete exact taps of the shipped table and symbolic image length (>= filter length), tolerance 1e-9 (qshift_06 in the quick tier, all 5 tables thorough)',
             'derivation steps not discharged by the solver: 2-D PR from the two 1-D identities (row and column operations act on different axes and commute; linearity), '
             'and the multi-level induction (crop/extension lemmas); images shorter than the filters and the remaining tables in the quick tier are covered by the bounded tier'],
         'explanation': 'library == reference forward/inverse (deductive, as C03/C11) + PR lemmas for the reference recursion (z3: q2c/c2q round trip, extension/crop, level-1 closed form, '
